@@ -104,7 +104,8 @@ def case_dedup(seed, out, spec, wd):
             snapcheck.check_closed(snap, probs)
             st['refs'] += sum(len(v.children) for v in snap.var_lookup.values()) + sum(
                 len(f.variables) for f in snap.frames) + len(snap.watches)
-            hit = budget is not None and len(snap.var_lookup) >= budget
+            # the budget counts the per-frame wrapper entries too, which are not part of the delivered table
+            hit = budget is not None and len(snap.var_lookup) + len(snap.frames) + 1 >= budget
             st['budget_hit'] = st['budget_hit'] or hit
             # lock-step walk over host frames: one id <-> one object
             reached = {}
